@@ -173,7 +173,8 @@ def find_table(src, name):
     m = re.search(rb"const\s+LocaleInfo::(\w+)\s+LocaleInfo::" + name + rb"\s*\[\s*\]\s*=\s*\{", src)
     if not m:
         raise TranslateError("definition of LocaleInfo::%s[] not found" % name.decode())
-    if len(re.findall(rb"LocaleInfo::" + name + rb"\s*\[", src)) != 1:
+    # definitions only (`LocaleInfo::name[] = {`): an indexed USE such as `LocaleInfo::languageInfo[i]` elsewhere is not one
+    if len(re.findall(rb"LocaleInfo::" + name + rb"\s*\[\s*\]\s*=", src)) != 1:
         raise TranslateError("more than one definition of %s" % name.decode())
     start = m.end()
     depth = 1
